@@ -8,6 +8,9 @@
 //              [moveagain=0] (moveToOwnThread once more, while the backlog is queued, right before the stop)
 //              [stagger=0] [after=2] [cycles=3] [producers=3] [per=20] [loop=1] [stop=reset|quit]
 //              [seed=1] [pace=<us>] [yield=<point>:<us>,...]
+//              [late=<ms>] (path=reset/cycles: one more producer thread logs ONE message <ms> after the stop was called AND the sink has
+//              entered the last message of the backlog - with a slow sink (delay) the logger thread is then inside the pipeline
+//              for the last queued message while the stop is under way: the late message must not overlap with it nor overtake it)
 //              [holdfirst=0] (the sink stalls inside its FIRST delivery on the worker until the stop has been called, plus 200 ms:
 //              with stagger=1 the whole backlog - tens of thousands of messages - is queued behind a stalled message when the
 //              stop begins, whatever the speed of the machine)
@@ -182,6 +185,7 @@ static std::map<std::string, std::string> A;
 static int geti(const char *k, int d) { auto it = A.find(k); return it == A.end() ? d : atoi(it->second.c_str()); }
 static std::string gets(const char *k, const char *d) { auto it = A.find(k); return it == A.end() ? d : it->second; }
 
+static int g_late_ms = 0, g_backlog_total = 0;
 static void logOne(int producer)
 {
     int id = g_next.fetch_add(1);
@@ -195,6 +199,7 @@ static void logOne(int producer)
 
 static void burst(int n, bool stagger)
 {
+    g_backlog_total += n;
     for (int i = 0; i < n; i++) {
         int before = g_entered.load();
         logOne(0);
@@ -246,6 +251,16 @@ static void moveAgain()
 static void doReset()
 {
     moveAgain();
+    std::thread lateProducer;
+    if (g_late_ms > 0) {
+        const int want = g_backlog_total;     // deliveries begun so far when the sink is inside the last queued message
+        lateProducer = std::thread([want]() {
+            for (int k = 0; k < 20000 && !(g_stop_called.load() && g_entered.load() >= want); k++) usleep(500);
+            usleep(1000 * g_late_ms);
+            logOne(7);
+        });
+    }
+    struct Joiner { std::thread &t; ~Joiner() { if (t.joinable()) t.join(); } } joiner { lateProducer };
     stopBegin();
     if (g_concurrent) { // two threads stop at the same time
         std::thread t([]() { t_stopper = 1; L->resetOwnThread(); emitf("STOP_END 1\n"); });
@@ -282,7 +297,7 @@ int main(int argc, char **argv)
         if (eq) A[std::string(argv[i], eq - argv[i])] = eq + 1;
     }
     const std::string path = gets("path", "reset");
-    g_relog = geti("relog", 0); g_movethread = geti("movethread", 0); g_concurrent = geti("concurrent", 0); g_moveagain = geti("moveagain", 0); g_holdfirst = geti("holdfirst", 0);
+    g_relog = geti("relog", 0); g_movethread = geti("movethread", 0); g_concurrent = geti("concurrent", 0); g_moveagain = geti("moveagain", 0); g_holdfirst = geti("holdfirst", 0); g_late_ms = geti("late", 0);
     const int backlog = geti("backlog", 5), delay = geti("delay", 0), after = geti("after", 2);
     const bool async = geti("async", 1), cfg = geti("cfg", 0), stagger = geti("stagger", 0), loop = geti("loop", 1);
     const int cycles = geti("cycles", 3), P = geti("producers", 3), per = geti("per", 20), seed = geti("seed", 1);
